@@ -41,7 +41,12 @@ RULE = (
     "and seeded triples/quadruples of renders of different entries of a universe h0 <- h1 "
     "with 6 leaf configurations under each, sync/async mixed, each step compared with the "
     "model's answer for that entry alone, plus str(template) of every cached template "
-    "against a fresh parse; samp = seeded random chains of depth 2..8 (mostly <= 4) over 3 names with "
+    "against a fresh parse; every 8th case of every family (every 2nd of cyc, a quarter "
+    "of the hist pairs) is ALSO run with its templates renamed to path-like names that "
+    "share base names across directories (x, d1/x, d2/x ...; x/y alternating; d/x, d/d/x), "
+    "cyclic graphs included; two more render modes with Environment(auto_escape=True) and "
+    "data d = <D&\"'> are added for ALL ctl cases, every 3rd case that uses block.super "
+    "and every 16th case (block bodies always contain literal < and >); samp = seeded random chains of depth 2..8 (mostly <= 4) over 3 names with "
     "random nesting, if/for wrappers, block.super once/twice, variable reads.  "
     "distinct = hash(sources, entry, data); non-trivial = the rendered chain has depth >= 2 "
     "and >= 1 block occurrence resolved to a definition from another template (or the "
@@ -83,6 +88,10 @@ ASSUMPTIONS = [
     "later include of its base, a bare block of the same name in the page, or another "
     "chain resolve on their own (the participate reading above only applies WHILE a chain "
     "of depth >= 2 is being resolved)",
+    "under auto_escape literal template text is output verbatim and a variable's value "
+    "is HTML-escaped exactly once, however many block.super levels it passes through",
+    "templates are identified by their FULL names: path-like names sharing a base name "
+    "are distinct templates, a cycle among them is still a cycle",
     "a history step is judged against the model's answer for that entry alone (renders "
     "are independent); str(template) of a cached template must equal str of a fresh parse",
 ]
@@ -90,6 +99,9 @@ ASSUMPTIONS = [
 BUDGET = 250_000
 MAX_BUDGET_HITS = 60  # then the shard stops: the violation is established, avoid the watchdog
 MODES = ("sync", "async", "sync+cache", "async+cache")
+ESC_MODES = ("sync+escape", "async+escape")  # Environment(auto_escape=True), hostile data
+ESC_D = "<D&\"'>"
+PATH_EVERY = {"cyc": 2}  # every n-th case is also run with path-like template names (default 8)
 DATA = {"d": "D", "yes": True, "no": False}
 
 # ---------------------------------------------------------------------------
@@ -215,6 +227,22 @@ def shape(prog: dict, entry: str) -> str:
     return f"depth{len(chain)}"
 
 
+def pathmap(prog: dict, variant: int) -> dict[str, str]:
+    """Path-like names with repeated base names: the first template keeps a bare name,
+    the others live in directories and share its base name (variant 0), alternate
+    between two base names (1) or sit at different depths (2)."""
+    out = {}
+    for i, n in enumerate(prog):
+        v = variant % 3
+        if v == 0:
+            out[n] = "x" if i == 0 else f"d{i}/x"
+        elif v == 1:
+            out[n] = ("x", "y")[i % 2] if i < 2 else f"d{i}/{('x', 'y')[i % 2]}"
+        else:
+            out[n] = "x" if i == 0 else "/".join(["d"] * i) + "/x"
+    return out
+
+
 def shape_kind(s: str) -> str:
     return "depth" if s.startswith("depth") else s
 
@@ -247,6 +275,10 @@ class Runner:
         self.budget_hits = 0
         self.standalone_dc = False
         self.standalone_participated = False
+        self.case_no = 0
+        self.esc_cur = False
+        self.what_prefix = ""
+        self.last_Eesc: Any = None
         self._strs: dict[tuple[str, str], str] = {}
         self._hist_prog: Any = None
         self._hist_exp: dict = {}
@@ -278,7 +310,8 @@ class Runner:
         finally:
             self.steps = sc.disarm()
 
-    def observe(self, sources: dict[str, str], entry: str, data: dict) -> dict[str, tuple]:
+    def observe(self, sources: dict[str, str], entry: str, data: dict,
+                esc: bool = False) -> dict[str, tuple]:
         env1 = self.Environment(loader=self.DictLoader(dict(sources)))
         env2 = self.Environment(loader=self.CachingDictLoader(dict(sources)))
         obs: dict[str, tuple] = {}
@@ -289,6 +322,11 @@ class Runner:
         for a in order:  # the second one is served from the cache
             obs["async+cache" if a else "sync+cache"] = self._one(env2, entry, data, a)
         self.flip = not self.flip
+        if esc:
+            env3 = self.Environment(loader=self.DictLoader(dict(sources)), auto_escape=True)
+            d2 = {**data, "d": ESC_D}
+            obs["sync+escape"] = self._one(env3, entry, d2, False)
+            obs["async+escape"] = self._one(env3, entry, d2, True)
         return obs
 
     # -- judgement --------------------------------------------------------------
@@ -364,14 +402,21 @@ class Runner:
                 return "required-not-reset-by-override"
         return what
 
-    def evaluate(self, prog: dict, entry: str, data: dict) -> tuple[str | None, M.Outcome, dict]:
+    def evaluate(self, prog: dict, entry: str, data: dict,
+                 esc: bool | None = None) -> tuple[str | None, M.Outcome, dict]:
         """-> (what-with-modes or None, expected, observations)."""
+        esc = self.esc_cur if esc is None else esc
+        standalone = _has_standalone_block_include(prog)
+        esc = esc and not standalone
         E = M.expected(prog, entry, data)
-        obs = self.observe(M.emit(prog), entry, data)
-        bad = {m: self.judge(E, a) for m, a in obs.items()}
+        obs = self.observe(M.emit(prog), entry, data, esc)
+        Eesc = M.expected(prog, entry, {**data, "d": ESC_D}, escape=True) if esc else None
+        self.last_Eesc = Eesc
+        exp = {m: (Eesc if m in ESC_MODES else E) for m in obs}
+        bad = {m: self.judge(exp[m], a) for m, a in obs.items()}
         bad = {m: w for m, w in bad.items() if w}
         self.standalone_dc = False
-        if _has_standalone_block_include(prog):
+        if standalone:
             # not pinned by the property: blocks of a merely included template may or
             # may not be resolved by the including chain; all four modes must agree
             # with one of the two readings
@@ -383,18 +428,61 @@ class Runner:
                     return None, E2, obs
         if not bad:
             return None, E, obs
-        m0 = next(m for m in MODES if m in bad)
-        what = self.refine(bad[m0], prog, entry, data, obs[m0])
-        if len(bad) < len(MODES) or len(set(bad.values())) > 1:
-            what += "@" + ",".join(m for m in MODES if m in bad)
-        return what, E, obs
+        modes = [m for m in (*MODES, *ESC_MODES) if m in obs]
+        m0 = next(m for m in modes if m in bad)
+        if m0 in ESC_MODES:
+            what = self.refine_esc(bad[m0], prog, entry, {**data, "d": ESC_D}, obs[m0])
+        else:
+            what = self.refine(bad[m0], prog, entry, data, obs[m0])
+        if len(bad) < len(modes) or len(set(bad.values())) > 1:
+            what += "@" + ",".join(m for m in modes if m in bad)
+        return self.what_prefix + what, E, obs
+
+    def refine_esc(self, what: str, prog: dict, entry: str, data: dict, A: tuple) -> str:
+        if what == "wrong-output":
+            for name, sem in (
+                ("super-output-escaped-again", M.Sem(super_reescape=True)),
+                ("less-derived-definition-wins", M.Sem(select="least")),
+                ("super-renders-base-most-definition", M.Sem(sup="base")),
+                ("super-renders-nothing", M.Sem(sup="none")),
+            ):
+                alt = M.expected(prog, entry, data, sem, escape=True)
+                if alt.kind == "out" and alt.text == A[1]:
+                    return name
+            return "wrong-output-under-auto-escape"
+        return what
 
     # -- a full case --------------------------------------------------------------
     def case(self, family: str, prog: dict, entry: str, data: dict | None = None) -> str | None:
-        ctx = self.ctx
+        """The case itself; every n-th case additionally with path-like template names
+        in which several chain members share a base name."""
         data = DATA if data is None else data
+        self.case_no += 1
+        n = self.case_no
+        uses_super = any(it[0] == "s" for items in prog.values() for it, _ in M.walk(items))
+        self.esc_cur = family == "ctl" or n % 16 == 0 or (uses_super and n % 3 == 0)
+        self.what_prefix = ""
+        key = self._case_one(family, prog, entry, data)
+        if n % PATH_EVERY.get(family, 8) == 0:
+            p2, e2, d2 = M.rename(prog, entry, data, pathmap(prog, n // 8))
+            self.what_prefix = "" if key else "path-names:"
+            self.ctx.count("path_named_cases")
+            if M.chain_of(p2, e2) is None:
+                self.ctx.count("path_named_cyclic")
+            elif len(M.chain_of(p2, e2) or []) > 1:
+                self.ctx.count("path_named_chains")
+            k2 = self._case_one(family + "+paths", p2, e2, d2)
+            self.what_prefix = ""
+            key = key or k2
+        return key
+
+    def _case_one(self, family: str, prog: dict, entry: str, data: dict) -> str | None:
+        ctx = self.ctx
         what, E, obs = self.evaluate(prog, entry, data)
         ctx.ev(len(obs))
+        if self.last_Eesc is not None:
+            ctx.count("auto_escape_cases")
+            ctx.count("auto_escape_supers_checked", self.last_Eesc.stats["supers"])
         if self.standalone_dc:
             ctx.count("dont_care_standalone_include_blocks")
             if self.standalone_participated:
@@ -456,11 +544,13 @@ class Runner:
         else:
             key = keys[0]
         descr = (
-            f"expected {wE.sig()!r}, observed "
-            + "; ".join(f"{m}={wobs[m][:2]!r}" for m in MODES)
+            f"expected {wE.sig()!r}"
+            + (f" (auto_escape: {self.last_Eesc.sig()!r})" if self.last_Eesc is not None else "")
+            + ", observed " + "; ".join(f"{m}={a[:2]!r}" for m, a in wobs.items())
         )
-        ctx.violation(key, descr[:600], {
+        ctx.violation(key, descr[:700], {
             "family": family, "prog": wprog, "entry": entry, "data": data,
+            "esc": self.esc_cur, "what_prefix": self.what_prefix,
             "sources": M.emit(wprog), "expected": list(wE.sig()),
             "observed": {m: list(a) for m, a in wobs.items()},
         })
@@ -1204,6 +1294,15 @@ def hist_cases(rng: random.Random, tier: str) -> Iterator[tuple[dict, list[str]]
                     yield prog, [e1, e2]
             for _ in range(40 if q else 24):
                 yield prog, [rng.choice(entries) for _ in range(rng.choice((3, 3, 4)))]
+            # the same universe under path-like names sharing base names (a quarter of
+            # the pairs): a chain is identified by full names
+            mp = pathmap(prog, len(c0[1]) + len(c1[2]))
+            progp = M.rename(prog, "h0", {}, mp)[0]
+            ents = [mp[e] for e in entries]
+            for i, e1 in enumerate(ents):
+                for j, e2 in enumerate(ents):
+                    if (i * len(ents) + j) % 4 == 0:
+                        yield progp, [e1, e2]
 
 
 HIST_MODES = ("ss", "sa", "as", "aa")
@@ -1218,6 +1317,8 @@ def _fam_hist(r: Runner, spec: dict, ctx: Ctx) -> None:
         pat = HIST_MODES[(idx // spec["n"]) % 4]
         steps = [[e, "async" if pat[j % 2] == "a" else "sync"] for j, e in enumerate(hist)]
         r.history(prog, steps, DATA)
+        if "x" in prog:
+            ctx.count("path_named_histories")
         last = (prog, steps)
         if idx % 512 == spec["i"]:
             ctx.check_deadline()
@@ -1238,16 +1339,16 @@ FAMILIES = {"exh": _fam_exh, "ctl": _fam_ctl, "struct": _fam_struct, "cyc": _fam
 def shards(tier: str, seed: int) -> list[dict[str, Any]]:  # noqa: ARG001
     specs: list[dict[str, Any]] = []
     q = tier == "quick"
-    n = 8 if q else 16
+    n = 9 if q else 16
     for i in range(n):
         specs.append({"kind": "exh", "i": i, "n": n})
     n = 1 if q else 12
     for i in range(n):
-        specs.append({"kind": "samp", "i": i, "n": n, "count": 2500 if q else 30000})
+        specs.append({"kind": "samp", "i": i, "n": n, "count": 2000 if q else 30000})
     n = 2 if q else 8
     for i in range(n):
         specs.append({"kind": "entry", "i": i, "n": n})
-    n = 2 if q else 4
+    n = 3 if q else 6
     for i in range(n):
         specs.append({"kind": "ctl", "i": i, "n": n})
     n = 2
@@ -1278,6 +1379,11 @@ def floors(tier: str) -> dict[str, int]:
         "cases_struct": 1_000,
         "cases_entry_after_chain": 800 if q else 8_000,
         "histories": 7_000 if q else 200_000,
+        "path_named_chains": 3_000 if q else 50_000,
+        "path_named_cyclic": 500,
+        "path_named_histories": 1_000 if q else 30_000,
+        "auto_escape_cases": 8_000 if q else 100_000,
+        "auto_escape_supers_checked": 3_000 if q else 50_000,
         "histories_mixing_required_error_and_output": 1_000 if q else 20_000,
         "set:expected_error_kinds": 5,
         "distinct_nontrivial": 20_000 if q else 200_000,
@@ -1329,14 +1435,19 @@ def replay(wit: dict[str, Any], ctx: Ctx) -> None:
                 r.history(prog, steps, data)
             return
         prog, entry, data = wit["prog"], wit["entry"], wit.get("data") or DATA
+        r.esc_cur = bool(wit.get("esc"))
+        r.what_prefix = wit.get("what_prefix") or ""
         what, E, obs = r.evaluate(prog, entry, data)
         print(f"replay C08: family={wit.get('family')} entry={entry} data={data}")
         for name, src in M.emit(prog).items():
             print(f"  {name}: {src}")
         print(f"  expected (reference resolution): {E.sig()!r}"
               + (" [don't-care: unreached required block]" if E.dont_care else ""))
-        for m in MODES:
-            print(f"  observed {m:12s}: {obs[m]!r}  -> {r.judge(E, obs[m]) or 'ok'}")
+        if r.last_Eesc is not None:
+            print(f"  expected under auto_escape with d={ESC_D!r}: {r.last_Eesc.sig()!r}")
+        for m in obs:
+            Em = r.last_Eesc if m in ESC_MODES else E
+            print(f"  observed {m:12s}: {obs[m]!r}  -> {r.judge(Em, obs[m]) or 'ok'}")
         if what:
             key = f"{shape(prog, entry)}:{what}"
             print(f"  key={key}")
